@@ -95,7 +95,8 @@ def bytes_snap(o):
         return ("series", bytes_snap(np.asarray(o.data)), tuple(bytes_snap(a) for a in attr_objs(o)),
                 o.time_unit, float(o.sampling_rate), bytes_snap(getattr(o, "metadata", None)))
     if isinstance(o, np.ndarray):
-        base = ("nd", type(o).__name__, o.shape, str(o.dtype), o.tobytes())
+        # shape, strides, dtype and the bytes in logical (C) order, whatever the memory layout
+        base = ("nd", type(o).__name__, o.shape, o.strides, str(o.dtype), o.tobytes())
         if isinstance(o, ts.TimeInterface):
             base += (o.time_unit, int(o._conversion_factor))
         if isinstance(o, ts.UniformTime):
@@ -188,7 +189,8 @@ def step_coq(st):
     if op == "ts_iop":
         return "(STsIop %s %s %s)" % (st["f"], nlit(st["x"]), operand_coq(st["o"]))
     if op == "csd":
-        return "(SCsd %s %s)" % (nlit(st["x"]), "None" if st["N"] is None else "(Some %s)" % zlit(st["N"]))
+        return "(SCsd %s %s %s)" % (nlit(st["x"]), "None" if st.get("k") is None else "(Some %s)" % nlit(st["k"]),
+                                    "None" if st["N"] is None else "(Some %s)" % zlit(st["N"]))
     if op == "boxcar":
         return "(SBoxcar %s)" % nlit(st["x"])
     if op == "fboxcar":
@@ -246,10 +248,12 @@ def do_step(env, st):
             x *= v
         return None, False
     if op == "csd":
-        if st["N"] is None:
-            tsa.periodogram_csd(x)
-        else:
-            tsa.periodogram_csd(x, NFFT=st["N"])
+        kw = {}
+        if st["N"] is not None:
+            kw["NFFT"] = st["N"]
+        if st.get("k") is not None:
+            kw["Sk"] = env[st["k"]]          # the caller's precomputed transform
+        tsa.periodogram_csd(x, **kw)
         return None, False
     if op == "boxcar":
         return tsa.boxcar_filter(x, **st.get("kw", {})), True
@@ -281,6 +285,7 @@ def run_history(h):
     outs, fails = [], []
     for si, st in enumerate(h["steps"]):
         before = [bytes_snap(o) for o in env]
+        kdim = np.ndim(env[st["k"]]) if st.get("k") is not None else None
         try:
             r, opq = do_step(env, st)
             exc = None
@@ -288,8 +293,9 @@ def run_history(h):
             r, opq, exc = None, False, e
         after = [bytes_snap(o) for o in env]
         target = st["x"] if (st["op"] in INPLACE and exc is None) else None
-        ov = st.get("o", {}).get("var")
-        okind = ("scalar" if ov is None else (kinds[ov] if ov < len(kinds) else "result")) if "o" in st else kinds[st["x"]]
+        ov = st.get("o", {}).get("var") if "o" in st else st.get("k")
+        okind = ("scalar" if ov is None else (kinds[ov] if ov < len(kinds) else "result")) if "o" in st else \
+            (kinds[st["x"]] if st.get("k") is None else "Sk-%dd" % kdim)
         for i, (b, a) in enumerate(zip(before, after)):
             if b == a or i == target:
                 continue
@@ -413,9 +419,19 @@ def g_rows():
     a1 = {"k": "arr", "dt": "float64", "sh": [8], "d": [3, 1, 4, 1, 5, 9, 2, 6]}
     a2 = {"k": "arr", "dt": "float64", "sh": [2, 4], "d": [3, 1, 4, 1, 5, 9, 2, 6]}
     a3 = {"k": "arr", "dt": "float64", "sh": [2, 2, 2], "d": [3, 1, 4, 1, 5, 9, 2, 6]}
-    for nm, a in (("1d", a1), ("2d", a2), ("3d", a3)):
+    a4 = {"k": "arr", "dt": "float64", "sh": [2, 1, 2, 2], "d": [3, 1, 4, 1, 5, 9, 2, 6]}
+    sks = {"1d": {"k": "arr", "dt": "float64", "sh": [6], "d": [2, 7, 1, 8, 2, 8]},
+           "2d": {"k": "arr", "dt": "float64", "sh": [2, 3], "d": [2, 7, 1, 8, 2, 8]},
+           "3d": {"k": "arr", "dt": "float64", "sh": [2, 3, 4], "d": list(range(1, 25))},
+           "4d": {"k": "arr", "dt": "float64", "sh": [2, 2, 2, 3], "d": list(range(1, 25))}}
+    for nm, a in (("1d", a1), ("2d", a2), ("3d", a3), ("4d", a4)):
         for N in (None, 8, 3, 0, -1):
             rows.append(("periodogram_csd/%s/NFFT=%s" % (nm, N), {"init": [a], "steps": [{"op": "csd", "x": 0, "N": N}]}))
+        for kn, sk in sks.items():
+            for N in (None, -1):
+                rows.append(("periodogram_csd/%s/Sk-%s/NFFT=%s" % (nm, kn, N),
+                             {"init": [a, sk], "steps": [{"op": "csd", "x": 0, "k": 1, "N": N}]}))
+    for nm, a in (("1d", a1), ("2d", a2), ("3d", a3)):
         rows.append(("boxcar_filter/%s" % nm, {"init": [a], "steps": [{"op": "boxcar", "x": 0}]}))
         rows.append(("boxcar_filter/%s/band" % nm, {"init": [a], "steps": [{"op": "boxcar", "x": 0, "kw": {"lb": 0.1, "ub": 0.3}}]}))
         rows.append(("boxcar_filter/%s/lowpass" % nm, {"init": [a], "steps": [{"op": "boxcar", "x": 0, "kw": {"ub": 0.2}}]}))
@@ -498,7 +514,7 @@ def place(init, o):
 
 
 def gen_history(rng):
-    theme = rng.choice(["ta", "ta", "ut", "ut", "ut", "ts", "ts", "alg"])
+    theme = rng.choice(["ta", "ta", "ut", "ut", "ut", "ts", "ts", "alg", "alg"])
     init, steps = [], []
     nres = [0]
 
@@ -586,13 +602,18 @@ def gen_history(rng):
             else:
                 steps.append({"op": "ts_iop", "f": rng.choice(["FAdd", "FSub", "FMul"]), "x": None, "o": p[1]})
     else:
-        nd = rng.choice([1, 2, 2, 3, 3])
+        nd = rng.choice([1, 2, 2, 3, 3, 4])
         sh = [rng.randint(1, 3) for _ in range(nd - 1)] + [rng.randint(2, 8)]
         tot = int(np.prod(sh))
         init.append({"k": "arr", "dt": rng.choice(["float64", "float64", "int64"]), "sh": sh, "d": [rint(rng) for _ in range(tot)]})
+        nd = rng.choice([1, 2, 3, 3, 4])
+        ksh = [rng.randint(1, 3) for _ in range(nd - 1)] + [rng.randint(2, 6)]
+        init.append({"k": "arr", "dt": "float64", "sh": ksh, "d": [rint(rng) for _ in range(int(np.prod(ksh)))]})
         for _ in range(rng.randint(1, 4)):
             r = rng.random()
-            if r < 0.6:
+            if r < 0.3:
+                steps.append({"op": "csd", "x": 0, "k": 1, "N": rng.choice([None, None, -1, 4])})
+            elif r < 0.6:
                 steps.append({"op": "csd", "x": 0, "N": rng.choice([None, None, sh[-1], sh[-1] + 3, max(1, sh[-1] - 1), 0, -1, -5])})
             elif r < 0.9:
                 st = {"op": "boxcar", "x": 0, "_res": True}
@@ -695,6 +716,52 @@ def sweep_entries(rng_seed):
         f = getattr(tsa, nm)
         for lbl, x in (("1d", x1), ("2d", x2), ("3d", x3)):
             add("algorithms.%s/%s" % (nm, lbl), f, x.copy())
+    x4 = R.randn(2, 2, 3, 32)
+    shapes = (("1d", x1), ("2d", x2), ("3d", x3), ("4d", x4))
+    # optional precomputed transforms of every dimensionality, with signals of every dimensionality
+    for lbl, x in shapes:
+        for klbl, xk in shapes:
+            Sk = np.fft.fft(xk)
+            add("algorithms.periodogram_csd/%s/Sk-%s" % (lbl, klbl), tsa.periodogram_csd, x.copy(), Sk=Sk.copy())
+            add("algorithms.periodogram_csd/%s/Sk-%s/bad-NFFT" % (lbl, klbl), tsa.periodogram_csd, x.copy(), Sk=Sk.copy(), NFFT=-1)
+            add("algorithms.periodogram/%s/Sk-%s" % (lbl, klbl), tsa.periodogram, x.copy(), Sk=Sk.copy())
+            add("algorithms.periodogram/%s/Sk-%s/twosided" % (lbl, klbl), tsa.periodogram, x.copy(), Sk=Sk.copy(), sides="twosided")
+        add("algorithms.periodogram_csd/%s/Sk-real" % lbl, tsa.periodogram_csd, x.copy(), Sk=x.copy()[..., :9])
+        add("algorithms.periodogram_csd/%s/Sk-F-order" % lbl, tsa.periodogram_csd, x.copy(), Sk=np.asfortranarray(np.fft.fft(x)))
+        add("algorithms.periodogram_csd/%s/F-order" % lbl, tsa.periodogram_csd, np.asfortranarray(x.copy()))
+        add("algorithms.periodogram_csd/%s/strided" % lbl, tsa.periodogram_csd, x.copy()[..., ::2])
+        for nm in ("multi_taper_psd", "multi_taper_csd", "periodogram", "get_spectra"):
+            if lbl == "4d":
+                add("algorithms.%s/4d" % nm, getattr(tsa, nm), x.copy())
+        add("algorithms.multi_taper_psd/%s/NW-jk" % lbl, tsa.multi_taper_psd, x.copy(), NW=3, jackknife=True, adaptive=False)
+        add("algorithms.multi_taper_psd/%s/twosided" % lbl, tsa.multi_taper_psd, x.copy(), sides="twosided", NFFT=40)
+        add("algorithms.multi_taper_csd/%s/twosided" % lbl, tsa.multi_taper_csd, x.copy(), sides="twosided", NFFT=40)
+        # mtm_cross_spectrum(tx, ty, weights): tapered transforms (K, ..., N) and weights as array / list / tuple
+        K = 4
+        tx = R.randn(K, *x.shape) + 1j * R.randn(K, *x.shape)
+        ty = R.randn(K, *x.shape) + 1j * R.randn(K, *x.shape)
+        wv = np.abs(R.randn(K, *([1] * x.ndim))) + 0.1
+        wf = np.abs(R.randn(K, *x.shape)) + 0.1
+        add("algorithms.mtm_cross_spectrum/%s/weights-array" % lbl, tsa.mtm_cross_spectrum, tx.copy(), tx.copy(), wv.copy())
+        add("algorithms.mtm_cross_spectrum/%s/weights-list" % lbl, tsa.mtm_cross_spectrum, tx.copy(), ty.copy(), [wv.copy(), wv.copy()])
+        add("algorithms.mtm_cross_spectrum/%s/weights-tuple-full" % lbl, tsa.mtm_cross_spectrum, tx.copy(), ty.copy(), (wf.copy(), wf.copy()), sides="onesided")
+        add("algorithms.mtm_cross_spectrum/%s/weights-mismatch" % lbl, tsa.mtm_cross_spectrum, tx.copy(), ty.copy()[:2], [wv.copy(), wv.copy()[:3]])
+    # arrays inside method dictionaries
+    win = np.hanning(16)
+    wm = {"this_method": "welch", "NFFT": 16, "window": win}
+    add("algorithms.get_spectra/welch/window-array", tsa.get_spectra, x2.copy(), method=dict(wm))
+    add("algorithms.get_spectra/welch/window-array/3d", tsa.get_spectra, x3.copy(), method=dict(wm))
+    add("algorithms.get_spectra_bi/welch/window-array", tsa.get_spectra_bi, x1.copy(), x1[::-1].copy(), method=dict(wm))
+    for nm in ("coherency", "coherence", "coherency_phase_spectrum", "coherency_bavg", "coherence_bavg"):
+        add("algorithms.%s/window-array" % nm, getattr(tsa, nm), x2.copy(), csd_method=dict(wm))
+        add("algorithms.%s/3d" % nm, getattr(tsa, nm), x3.copy())
+    add("algorithms.coherence_partial/window-array", tsa.coherence_partial, x2.copy(), x1.copy(), csd_method=dict(wm))
+    add("algorithms.coherency_regularized/window-array", tsa.coherency_regularized, x2.copy(), 0.1, 0.1, csd_method=dict(wm))
+    add("algorithms.cache_fft/window-array", tsa.cache_fft, x2.copy(), (np.array([0, 1]), np.array([1, 2])), method=dict(wm))
+    add("algorithms.cache_fft/ij-2d-array", tsa.cache_fft, x2.copy(), np.array([[0, 1], [1, 2]]))
+    add("algorithms.cache_fft/3d", tsa.cache_fft, x3.copy(), (np.array([0, 1]), np.array([1, 2])))
+    add("algorithms.seed_corrcoef/3d", tsa.seed_corrcoef, x1.copy(), x3.copy())
+    add("algorithms.dpss_windows/interp", tsa.dpss_windows, 64, 4, 4, interp_from=32)
     add("algorithms.periodogram_csd/3d/bad-NFFT", tsa.periodogram_csd, x3.copy(), NFFT=-1)
     add("algorithms.periodogram_csd/3d/NFFT-str", tsa.periodogram_csd, x3.copy(), NFFT="x")
     add("algorithms.periodogram_csd/2d/Sk", tsa.periodogram_csd, x2.copy(), Sk=np.fft.fft(x2))
@@ -732,6 +799,8 @@ def sweep_entries(rng_seed):
         add("algorithms.cache_to_psd", tsa.cache_to_psd, cache, ij)
         add("algorithms.cache_to_phase", tsa.cache_to_phase, cache, ij)
         add("algorithms.cache_to_coherency", tsa.cache_to_coherency, cache, ij)
+        add("algorithms.cache_to_relative_phase", tsa.cache_to_relative_phase, cache, ij)
+        add("algorithms.cache_to_psd/missing-pair", tsa.cache_to_psd, cache, (np.array([2]), np.array([0])))
     except Exception:  # noqa
         pass
     add("algorithms.seed_corrcoef", tsa.seed_corrcoef, x1.copy(), x2.copy())
@@ -779,6 +848,8 @@ def sweep_entries(rng_seed):
             continue
         add("utils.%s/1d" % nm, f, pos1.copy())
         add("utils.%s/2d" % nm, f, pos2.copy())
+        add("utils.%s/3d" % nm, f, np.abs(x3) + 1)
+        add("utils.%s/4d-strided" % nm, f, (np.abs(R.randn(2, 2, 3, 32)) + 1)[..., ::2])
     add("utils.zero_pad", tsu.zero_pad, x2.copy(), 4)
     add("utils.rescale_arr", tsu.rescale_arr, x2.copy(), 0, 1)
     add("utils.thresholded_arr", tsu.thresholded_arr, pos2.copy(), 1.2, 1.8)
